@@ -30,7 +30,7 @@ pub fn batches(prop: &str) -> Vec<Batch> {
         "C03" => vec![b("B", "basic", 2500, 120_000), b("B", "sizes", 1500, 60_000), b("B", "faulty", 1500, 60_000), b("B", "cache", 800, 30_000)],
         "C04" => vec![b("B", "sizes", 3000, 120_000), b("B", "large", 400, 20_000), b("B", "basic", 1500, 60_000)],
         "C06" => vec![b("B", "cache", 3000, 150_000)],
-        "C07" => vec![b("B", "basic", 2000, 100_000), b("B", "faulty", 3000, 150_000), b("B", "burst", 800, 40_000)],
+        "C07" => vec![b("B", "basic", 2000, 100_000), b("B", "faulty", 3000, 150_000), b("B", "burst", 800, 40_000), b("B", "sizes", 800, 40_000), b("B", "idreuse", 600, 40_000)],
         "C14" => vec![b("B", "large", 500, 20_000), b("B", "sizes", 2000, 80_000)],
         "C15" => vec![b("B", "routes", 3000, 160_000), b("B", "basic", 1000, 40_000)],
         "C16" => vec![b("B", "flood", 1200, 60_000), b("B", "cookie", 1200, 60_000)],
